@@ -100,3 +100,77 @@ theorem index_src_fundamental3 (p q : Nat → K) (s : Nat → Nat) (t : Int)
   index_finish
 
 end Pams.Src
+
+/-! ### the index market's component bookkeeping -/
+namespace Pams.Src
+open Pams Pams.Py
+variable {K : Type} [LinearOrder K] [NumOpsC K]
+
+/-- an index market (address 9) over the components 5 and 6, whose running flags are the bool atoms 5 and 6;
+a candidate component at address 7 with (`shares = true`) or without outstanding shares -/
+def idxBkHeap (shares : Bool) : Nat → String → Option Val :=
+  fun addr =>
+    if addr = 9 then (fun f => match f with
+      | "__class__" => some (.str "IndexMarket") | "_components" => some (.list [.ref 5, .ref 6]) | _ => none)
+    else if addr = 5 ∨ addr = 6 then (fun f => match f with
+      | "__class__" => some (.str "Market") | "_is_running" => some (.bool (.atom addr))
+      | "outstanding_shares" => some (.int (.atom (10 * addr))) | _ => none)
+    else if addr = 7 then (fun f => match f with
+      | "__class__" => some (.str "Market") | "outstanding_shares" => some (if shares then .int (.atom 70) else .none)
+      | _ => none)
+    else fun _ => none
+
+def idxBkSt (shares : Bool) : St := { heap := idxBkHeap shares, calls := [] }
+def idxBkEnv : Env := { prog := PamsGen.Code.prog, globals := globals, ext := fun _ _ _ _ => none, mro := PamsGen.Code.mroOf }
+
+def compsObs : Except Py.Err (Val × St) → Obs
+  | .ok (v, st) => .tuple [Obs.ofVal v, match st.heap 9 "_components" with
+      | some (.list l) => .tuple (l.map Obs.ofVal) | _ => .absent]
+  | .error e => .err e
+
+def idxBkPaths (fn : String) (args : List Val) (shares : Bool) :=
+  obsPathsPG compsObs idxBkEnv FUEL ("IndexMarket." ++ fn) (.ref 9 :: args) (idxBkSt shares)
+
+def rhoBk (r5 r6 : Bool) : Rho K :=
+  { i := fun _ => 0, n := fun _ => PyNum.ofInt 0, b := fun k => if k = 5 then r5 else r6 }
+
+theorem ibP_run : idxBkPaths "is_all_markets_running" [] true = evalnf% (idxBkPaths "is_all_markets_running" [] true) := by kernel_rfl
+theorem ibP_add : idxBkPaths "_add_market" [.ref 7] true = evalnf% (idxBkPaths "_add_market" [.ref 7] true) := by kernel_rfl
+theorem ibP_addNo : idxBkPaths "_add_market" [.ref 7] false = evalnf% (idxBkPaths "_add_market" [.ref 7] false) := by kernel_rfl
+theorem ibP_addDup : idxBkPaths "_add_market" [.ref 6] true = evalnf% (idxBkPaths "_add_market" [.ref 6] true) := by kernel_rfl
+
+/-- **`is_all_markets_running` is the conjunction of the components' running flags**; `_add_market` appends a
+new component, and refuses one that is a component already or has no outstanding shares -/
+theorem index_src_components (r5 r6 : Bool) :
+    resultG compsObs (rhoBk (K := K) r5 r6) idxBkEnv FUEL "IndexMarket.is_all_markets_running" [.ref 9] (idxBkSt true)
+      = .tuple [.bool (r5 && r6), .tuple [.ref 5, .ref 6]] ∧
+    resultG compsObs (rhoBk (K := K) r5 r6) idxBkEnv FUEL "IndexMarket._add_market" [.ref 9, .ref 7] (idxBkSt true)
+      = .tuple [.none, .tuple [.ref 5, .ref 6, .ref 7]] ∧
+    resultG compsObs (rhoBk (K := K) r5 r6) idxBkEnv FUEL "IndexMarket._add_market" [.ref 9, .ref 7] (idxBkSt false)
+      = .err (.raise "AssertionError") ∧
+    resultG compsObs (rhoBk (K := K) r5 r6) idxBkEnv FUEL "IndexMarket._add_market" [.ref 9, .ref 6] (idxBkSt true)
+      = .err (.raise "ValueError") := by
+  refine ⟨?_, ?_, ?_, ?_⟩
+  · apply resultG_eq_of_pathsP (by intro x; simp)
+    show ∀ p ∈ idxBkPaths "is_all_markets_running" [] true, _
+    py_paths ibP_run
+    all_goals intro h
+    all_goals simp [BTerm.eval, ITerm.eval, rhoBk, Obs.eval, Obs.evalList] at h ⊢
+    all_goals (cases r5 <;> cases r6 <;> simp_all)
+  · apply resultG_eq_of_pathsP (by intro x; simp)
+    show ∀ p ∈ idxBkPaths "_add_market" [.ref 7] true, _
+    py_paths ibP_add
+    all_goals intro h
+    all_goals simp [BTerm.eval, ITerm.eval, rhoBk, Obs.eval, Obs.evalList] at h ⊢
+  · apply resultG_eq_of_pathsP (by intro x; simp)
+    show ∀ p ∈ idxBkPaths "_add_market" [.ref 7] false, _
+    py_paths ibP_addNo
+    all_goals intro h
+    all_goals simp [BTerm.eval, ITerm.eval, rhoBk, Obs.eval, Obs.evalList] at h ⊢
+  · apply resultG_eq_of_pathsP (by intro x; simp)
+    show ∀ p ∈ idxBkPaths "_add_market" [.ref 6] true, _
+    py_paths ibP_addDup
+    all_goals intro h
+    all_goals simp [BTerm.eval, ITerm.eval, rhoBk, Obs.eval, Obs.evalList] at h ⊢
+
+end Pams.Src
